@@ -16,6 +16,10 @@ pub(crate) mod macros;
 /// `BeanFactory` impls.
 pub mod beans;
 
+/// Verification hooks (event sink and pause points), compiled only with `--cfg open_coroutine_verif`.
+#[cfg(open_coroutine_verif)]
+pub mod verif;
+
 /// Suppose a thread in a work-stealing scheduler is idle and looking for the next task to run. To
 /// find an available task, it might do the following:
 ///
